@@ -196,7 +196,7 @@ func (c *codegen) fail(n ast.Node, format string, a ...interface{}) {
 	}
 	fmt.Fprintf(os.Stderr, "extract: function %s (%s): unsupported construct: %s\n",
 		where, c.pos(n), fmt.Sprintf(format, a...))
-	os.Exit(2)
+	refuse() // code_topics.go: the refusal is per topic, not per run
 }
 
 func (c *codegen) src(n ast.Node) string {
